@@ -100,3 +100,18 @@ Section Spec.
   Definition spec_visit (v : jv) : list event * Z :=
     let '(tr, res) := machine (flatten v [] PNone KNone 0) Run [] in (rev_append tr [], res).   (* = rev tr *)
 End Spec.
+
+(* ---- several traversals: every traversal of a program is the reference traversal of its
+   own tree with its own callback; a nested one takes place iff the call that starts it does *)
+Fixpoint spec_prog (p : prog) : list (option (list event * Z)) :=
+  match p with
+  | Prog v codes nested =>
+      let out := spec_visit (sched_fun codes) v in
+      Some out :: (fix go (l : list (Z * prog)) :=
+                     match l with
+                     | [] => []
+                     | kq :: t =>
+                         (if (1 <=? fst kq) && (fst kq <=? zlen (fst out)) then spec_prog (snd kq)
+                          else not_run (snd kq)) ++ go t
+                     end) nested
+  end.
